@@ -11066,3 +11066,29 @@ impl SctpTransport {
         self.inner.maybe_send_tlp_probe(Instant::now())
     }
 }
+
+#[cfg(rustrtc_verif)]
+impl SctpTransport {
+    /// H2: the SACK history the sender remembers (highest cumulative TSN seen, signature of the
+    /// last SACK), so that `handle_sack` can be run as a function on a loaded sender state.
+    pub fn verif_set_sack_history(&self, peer_cumulative_ack: u32, last_sack_sig: u64) {
+        let i = &self.inner;
+        i.peer_cumulative_ack
+            .store(peer_cumulative_ack, Ordering::SeqCst);
+        i.last_sack_sig.store(last_sack_sig, Ordering::SeqCst);
+        i.fast_recovery_active.store(false, Ordering::SeqCst);
+    }
+
+    /// H2: `handle_sack` on the value of a SACK chunk (everything after the chunk header).
+    pub async fn verif_handle_sack(&self, value: Bytes) -> Result<()> {
+        self.inner.handle_sack(value).await
+    }
+
+    /// (peer_rwnd, peer_cumulative_ack)
+    pub fn verif_sack_view(&self) -> (u32, u32) {
+        (
+            self.inner.peer_rwnd.load(Ordering::SeqCst),
+            self.inner.peer_cumulative_ack.load(Ordering::SeqCst),
+        )
+    }
+}
